@@ -37,8 +37,11 @@ LEVEL = "proof"
 RULE = ("cases = (valid DTM / NTM / MNTM, input, number n of next() calls); corpus (F11 trigger, "
         "machines leaving both tape ends), bounded-exhaustive tiny deterministic tables (2 states + 1 "
         "final, tape alphabets {0,#} / {0,1,#}, few rows, inputs ≤3) each run as DTM, as NTM and as 1-tape "
-        "MNTM, then shaped random machines (≤4 states, L/R/N, blank writes, nondeterministic, 1–3 tapes, "
-        "adversarial state-name pools) and mutated invalid definitions for validate(); a case is "
+        "MNTM, then shaped random machines (≤4 states and a family with 5–6 states, L/R/N, blank writes, "
+        "nondeterministic, 1–3 tapes, adversarial state-name pools, MNTM transition lists with a repeated entry "
+        "and given as tuples, inputs with a symbol outside the tape alphabet), a two-tape guess-and-verify machine "
+        "whose breadth-first frontier exceeds 8192 pending configurations (real run vs. reference only) "
+        "and mutated invalid definitions for validate(); a case is "
         "non-trivial when at least 3 configurations are yielded; distinct = distinct (kind, definition, "
         "input, n)")
 ASSUMPTIONS = [
@@ -195,7 +198,7 @@ def _describe(kind, m, w, n):
 
 
 def check_dtm(ctx: Ctx, m: DTM, w: str, n: int, origin: str):
-    if E.gave_up():
+    if E.skip(ctx):
         return None
     drv = ctx.driver(DRV)
     enc, st = E.enc_dtm(m)
@@ -207,6 +210,8 @@ def check_dtm(ctx: Ctx, m: DTM, w: str, n: int, origin: str):
     ctx.case(("D", enc, w, n) if len(ys) >= 3 else None)
     ctx.stat(origin)
     ctx.stat("dtm_end_" + end.replace(" ", "_"))
+    if any(c not in m.tape_symbols for c in w):
+        ctx.stat("dtm_input_with_a_symbol_outside_the_tape_alphabet")
     if info["left"]:
         ctx.stat("dtm_head_left_of_cell0")
     if info["right"]:
@@ -231,7 +236,7 @@ def check_dtm(ctx: Ctx, m: DTM, w: str, n: int, origin: str):
 
 
 def check_ntm(ctx: Ctx, m: NTM, w: str, n: int, origin: str):
-    if E.gave_up():
+    if E.skip(ctx):
         return None
     drv = ctx.driver(DRV)
     enc, st = E.enc_ntm(m)
@@ -245,6 +250,8 @@ def check_ntm(ctx: Ctx, m: NTM, w: str, n: int, origin: str):
     ctx.case(("N", enc, w, n) if len(ys) >= 3 else None)
     ctx.stat(origin)
     ctx.stat("ntm_end_" + end.replace(" ", "_"))
+    if any(c not in m.tape_symbols for c in w):
+        ctx.stat("ntm_input_with_a_symbol_outside_the_tape_alphabet")
     if any(len(l) >= 2 for l in ys):
         ctx.stat("ntm_level_with_2+_configurations")
     if any(len(l) != len(g) for l, g in zip(ys, got)):
@@ -267,7 +274,7 @@ def check_ntm(ctx: Ctx, m: NTM, w: str, n: int, origin: str):
 
 
 def check_mntm(ctx: Ctx, m: MNTM, w: str, n: int, origin: str):
-    if E.gave_up():
+    if E.skip(ctx):
         return None
     drv = ctx.driver(DRV)
     enc, st = E.enc_mntm(m)
@@ -302,6 +309,10 @@ def check_mntm(ctx: Ctx, m: MNTM, w: str, n: int, origin: str):
     ctx.stat(f"mntm_tapes_{m.n_tapes}")
     if any(len(rs) == 0 for row in m.transitions.values() for rs in row.values()):
         ctx.stat("mntm_with_empty_transition_list")
+    if any(len(set(rs)) != len(rs) for row in m.transitions.values() for rs in row.values()):
+        ctx.stat("mntm_with_a_repeated_list_entry")
+    if any(c not in m.tape_symbols for c in w):
+        ctx.stat("mntm_input_with_a_symbol_outside_the_tape_alphabet")
     case = _describe("MNTM", m, w, n)
     if wrong:
         ctx.prop_fail(f"MNTM on {w!r} ({n} next() calls): " + "; ".join(wrong), dict(case, impl=impl), None)
@@ -319,7 +330,7 @@ def model_verdict(ctx: Ctx, cmd: str, enc: str, w: str, n: int) -> str:
 
 def check_triple(ctx: Ctx, kw, table, w: str, n: int, origin: str):
     """The same deterministic table as DTM / NTM / one-tape MNTM: verdicts under a budget."""
-    if E.gave_up():
+    if E.skip(ctx):
         return None
     d, nt, mt = E.dtm_from(kw, table), E.ntm_from(kw, table), E.mntm1_from(kw, table)
     vd = E.verdict_of(E.observe(d.read_input_stepwise(w), n)[1])
@@ -343,8 +354,13 @@ def check_triple(ctx: Ctx, kw, table, w: str, n: int, origin: str):
         wrong.append(f"DTM verdict {vd} but textbook verdict {vt}")
     if vd != "fuel" and (vn != vd or vm != vd):
         wrong.append(f"verdicts differ: DTM {vd}, NTM {vn}, 1-tape MNTM {vm}")
-    if vd == "fuel" and (vn not in ("fuel", ) and vn != E.verdict_of(oracle_dtm(d, w, n + 1)[1])):
+    vt1 = E.verdict_of(oracle_dtm(d, w, n + 1)[1])
+    if vd == "fuel" and (vn not in ("fuel", ) and vn != vt1):
         wrong.append(f"NTM verdict {vn} where the DTM is undecided")
+    if vm != vt1 and not vm.startswith("crash"):
+        # the one-tape MNTM visits exactly the DTM's configurations: after n+1 calls it stands as the
+        # textbook run does after n+1 calls — also where the DTM (n calls) is still undecided
+        wrong.append(f"1-tape MNTM verdict {vm} after {n + 1} calls, textbook run {vt1}")
     for v in (vd, vn, vm):
         if v.startswith("crash"):
             wrong.append(v)
@@ -359,6 +375,106 @@ def check_triple(ctx: Ctx, kw, table, w: str, n: int, origin: str):
           model_verdict(ctx, "MNTM_VISIT", enc_m, w, n + 1))
     if mv != (vd, vn, vm):
         ctx.corr_diff("VERDICT_TRIPLE", case, (vd, vn, vm), mv)
+
+
+# ------------------------------------------------------------------ wide frontier (impl vs. reference only)
+def guess_and_verify(accepting: bool = True) -> MNTM:
+    """Two tapes, branching 2: while reading the input on tape 1 guess a bit per cell onto tape 2, then walk
+    both heads back comparing the tapes; exactly one of the 2^n branches survives.  The breadth-first
+    frontier reaches 2^n pending configurations.  `accepting=False`: the last row is missing, so the whole
+    tree is explored and the input rejected."""
+    table = {
+        "g": {("0", "#"): [("g", (("0", "R"), ("0", "R"))), ("g", (("0", "R"), ("1", "R")))],
+              ("1", "#"): [("g", (("1", "R"), ("0", "R"))), ("g", (("1", "R"), ("1", "R")))],
+              ("#", "#"): [("c", (("#", "L"), ("#", "L")))]},
+        "c": {("0", "0"): [("c", (("0", "L"), ("0", "L")))],
+              ("1", "1"): [("c", (("1", "L"), ("1", "L")))]},
+    }
+    if accepting:
+        table["c"][("#", "#")] = [("acc", (("#", "N"), ("#", "N")))]
+    return MNTM(states={"g", "c", "acc"}, input_symbols={"0", "1"}, tape_symbols={"0", "1", "#"}, n_tapes=2,
+                transitions=table, initial_state="g", blank_symbol="#", final_states={"acc"})
+
+
+def ref_level_sizes(m: MNTM, w: str, max_total: int):
+    """Textbook breadth-first levels (dict tapes, path multiplicity): (verdict, configurations in the levels
+    before the last one, size of the last level, widest level); verdict None = budget exhausted."""
+    blank = m.blank_symbol
+    level = [(m.initial_state, [E.ref_start(w)] + [({}, 0) for _ in range(m.n_tapes - 1)])]
+    before, widest = 0, 1
+    while True:
+        widest = max(widest, len(level))
+        if not level:
+            return "reject", before, 0, widest
+        if any(s in m.final_states for (s, _t) in level):
+            return "accept", before, len(level), widest
+        before += len(level)
+        if before > max_total:
+            return None, before, 0, widest
+        nxt = []
+        for (s, t) in level:
+            key = tuple(c.get(h, blank) for (c, h) in t)
+            for (q, moves) in (m.transitions.get(s, {}).get(key) or ()):
+                nxt.append((q, [E.ref_apply(c, h, sy, d) for (sy, d), (c, h) in zip(moves, t)]))
+        level = nxt
+
+
+def check_wide(ctx: Ctx, m: MNTM, w: str, origin: str, max_total: int = 400000):
+    """A breadth-first frontier of thousands of pending configurations: the real run against the
+    independent reference only (verdict and number of visited configurations; no model call — the Lean
+    theorems are about all frontiers, the driver need not enumerate 60 000 configurations)."""
+    if E.skip(ctx):
+        return None
+    verdict, before, last, widest = ref_level_sizes(m, w, max_total)
+    if verdict is None:
+        ctx.note(f"wide frontier: reference budget exhausted on {w!r}")
+        return None
+    lo, hi = (before + 1, before + last) if verdict == "accept" else (before, before)
+    count, end = 0, "run"
+    try:
+        with E.time_limit(120.0):
+            try:
+                for y in m.read_input_stepwise(w):
+                    count += 1
+                    if count > hi:
+                        break
+                else:
+                    end = "ret"
+            except (RecursionError, E.HarnessTimeout):
+                raise
+            except Exception as e:  # noqa: BLE001
+                end = "raise " + type(e).__name__
+    except E.HarnessTimeout:
+        end = "raise HarnessTimeout"
+    got = E.verdict_of(end)
+    acc = E.bounded_call(lambda: m.accepts_input(w))
+    ctx.case(("W", repr(m), w))
+    ctx.stat(origin)
+    ctx.stat("wide_frontier_" + ("8192+" if widest > 8192 else "4096+" if widest > 4096 else "1024+" if widest > 1024
+                                  else "small"))
+    wrong = []
+    if got != verdict:
+        wrong.append(f"the run ends with {got if got != 'fuel' else 'more visited configurations than exist'}, "
+                     f"the reference verdict is {verdict}")
+    elif not lo <= count <= hi:
+        wrong.append(f"{count} configurations visited, the breadth-first levels of the reference contain "
+                     f"{lo}" + (f"–{hi}" if hi != lo else "") + " up to that point")
+    if acc != ("ok", verdict == "accept"):
+        wrong.append(f"accepts_input = {acc}")
+    if wrong:
+        ctx.prop_fail(f"MNTM with a wide breadth-first frontier (up to {widest} pending configurations) on {w!r}: "
+                      + "; ".join(wrong), dict(kind="WIDE", machine=repr(m), word=w, n=0), None)
+    return got
+
+
+def wide_frontier(ctx: Ctx):
+    acc, rej = guess_and_verify(True), guess_and_verify(False)
+    for w in ("0" * 13, "0" * 14, "0110100110010"):
+        check_wide(ctx, acc, w, "wide_frontier")
+    check_wide(ctx, rej, "1" * 12, "wide_frontier")
+    if ctx.thorough():
+        check_wide(ctx, acc, "10" * 8, "wide_frontier")
+        check_wide(ctx, rej, "0" * 14, "wide_frontier")
 
 
 # ------------------------------------------------------------------ validation stream
@@ -491,7 +607,12 @@ def behaviour_of_accepted(ctx: Ctx, kind: str, m):
             else:
                 check_mntm(ctx, m, w, 12, "accepted_by_code_only")
     except Exception as e:  # noqa: BLE001 — e.g. the three constructors disagree about validity
-        ctx.note(f"behaviour_of_accepted: {type(e).__name__}: {e}")
+        # a definition the code accepts is a valid machine as far as the code is concerned: an exception
+        # while running it / giving the same table to the sibling classes is a failure of the property
+        ctx.stat("accepted_by_code_only_raises")
+        ctx.prop_fail(f"definition accepted by {CLS[kind].__name__}.validate (the model rejects it): running it / "
+                      f"building the same table as NTM / 1-tape MNTM raises {type(e).__name__}: {e}",
+                      dict(kind="VALIDATE", cls=kind, machine=repr(m)), None)
 
 
 def validation_stream(ctx: Ctx, count: int):
@@ -511,9 +632,15 @@ def validation_stream(ctx: Ctx, count: int):
             _mutate(rng, kind, kw)
         try:
             bad = E.mk_unchecked(CLS[kind], **kw)
-        except Exception:  # noqa: BLE001 — unhashable / malformed beyond the typed model
+        except Exception as e:  # noqa: BLE001 — unhashable / malformed beyond the typed model
+            ctx.stat("validate_mutant_dropped_unconstructible")
+            ctx.stat("validate_mutant_dropped:" + type(e).__name__)
             continue
         check_validate(ctx, kind, bad, "validate_mutated")
+    dropped = ctx.stats.get("validate_mutant_dropped_unconstructible", 0)
+    if dropped:
+        ctx.note(f"NOTE: {dropped} of {count} mutated definitions could not even be constructed with validation "
+                 f"switched off (see validate_mutant_dropped:* in the generator distribution) and were not compared")
 
 
 # ------------------------------------------------------------------ corpus
@@ -551,7 +678,9 @@ def corpus(ctx: Ctx):
 def run(ctx: Ctx):
     rng = ctx.rng
     thorough = ctx.thorough()
+    E.reset_watchdog()
     corpus(ctx)
+    wide_frontier(ctx)
     # 1. bounded-exhaustive tiny deterministic tables
     kw2 = dict(states={"q0", "q1", "qf"}, input_symbols={"0"}, tape_symbols={"0", "#"}, initial_state="q0",
                blank_symbol="#", final_states={"qf"})
@@ -607,8 +736,20 @@ def run(ctx: Ctx):
         m = E.rand_mntm(rng)
         for _ in range(2):
             check_mntm(ctx, m, E.rand_input(rng, m), rng.choice([1, 2, 4, 8, 16, 30]), "random_mntm")
+    # 2b. a family with 5–6 states (longer chains of distinct states), inputs up to length 6
+    for _ in range(ctx.budget(250, 4000)):
+        kw, table = E.rand_dtm_table(rng, max_states=6, min_states=5)
+        d = E.dtm_from(kw, table)
+        w = E.rand_input(rng, d, max_len=6)
+        check_dtm(ctx, d, w, rng.choice([6, 12, 25, 40]), "random_5to6_states")
+        check_triple(ctx, kw, table, w, rng.choice([30, 60]), "random_5to6_states")
+        mn = E.rand_ntm(rng, max_states=6, min_states=5)
+        check_ntm(ctx, mn, E.rand_input(rng, mn, max_len=6), rng.choice([3, 5, 8]), "random_5to6_states")
+        mm = E.rand_mntm(rng, max_states=6, min_states=5)
+        check_mntm(ctx, mm, E.rand_input(rng, mm, max_len=6), rng.choice([8, 16, 30, 45]), "random_5to6_states")
     # 3. validation
     validation_stream(ctx, ctx.budget(1000, 12000))
+    E.report_watchdog(ctx)
 
 
 def replay(ctx: Ctx, path: str) -> int:
@@ -628,6 +769,8 @@ def replay(ctx: Ctx, path: str) -> int:
         check_ntm(ctx, m, rp["word"], rp["n"], "replay")
     elif kind == "MNTM":
         check_mntm(ctx, m, rp["word"], rp["n"], "replay")
+    elif kind == "WIDE":
+        check_wide(ctx, m, rp["word"], "replay")
     elif kind == "TRIPLE":
         kw = dict(states=set(m.states), input_symbols=set(m.input_symbols), tape_symbols=set(m.tape_symbols),
                   initial_state=m.initial_state, blank_symbol=m.blank_symbol, final_states=set(m.final_states))
